@@ -1,14 +1,221 @@
 /-
-  Driver.C03 — line protocol front end for property C03 (stub: not built yet).
+  Driver.C03 — line protocol for tensor and matrix arithmetic.
+
+    @ <fp|rat|i64|f64>                              new case, element type        → ok
+                                                    (f64: integer-valued data, answered by the integer model)
+    t <name> <shape> <values>                       Tensor::from                  → ok | panic(explicit)
+    v <name> <src> access|transpose|reverse|rename <names>
+    v <name> <src> range <start:len,…>              view over a tensor/view       → ok shape=<shape> | none
+    m <name> <rows> <cols> <values>                 Matrix::from_flat_row_major   → ok | panic(explicit)
+    w <name> <src> range <start:len> <start:len>    MatrixRange over a matrix/view → ok size=RxC | none
+    w <name> <src> reverse <0|1><0|1>               MatrixReverse
+    w <name> <tensor operand> oftensor              MatrixRefTensor over a 2-D tensor / tensor view → ok size=RxC | none
+    mmap <A> via=<form>                             Matrix::map / MatrixView::map with x*x-x
+    add|sub|mul|ewise <A> <B> via=<form>            operators / elementwise(x*y-y) → shape=… data=… | size=RxC data=… | panic(k)
+    sadd|ssub|smul|sdiv <A> <scalar> via=<form>     scalar broadcasts
+    neg <A> via=<form>                              matrices only
+    dot <A> <B> via=<form>                          scalar_product (1-D tensors)   → value=… | panic(k)
+
+  `via=` names the owned/borrowed × container/view form the harness uses; the model has one answer.
 -/
+import EasyMl.Model.Arith
 import Driver.Parse
 
 namespace Driver.C03
+open EasyMl EasyMl.Arith Driver
 
-abbrev State := Unit
+/-- `i64` of the integer runs (values are kept far from overflow by the generator);
+    `/` truncates towards zero like Rust's. -/
+structure I64 where
+  v : Int
+  deriving DecidableEq
 
-def init : State := ()
+instance : Add I64 := ⟨fun a b => ⟨a.v + b.v⟩⟩
+instance : Sub I64 := ⟨fun a b => ⟨a.v - b.v⟩⟩
+instance : Mul I64 := ⟨fun a b => ⟨a.v * b.v⟩⟩
+instance : Div I64 := ⟨fun a b => ⟨Int.tdiv a.v b.v⟩⟩
+instance : Neg I64 := ⟨fun a => ⟨-a.v⟩⟩
+instance : Zero I64 := ⟨⟨0⟩⟩
 
-def step (s : State) (_toks : List String) : State × String := (s, "unimplemented")
+class Elem (α : Type) where
+  parse : String → Option α
+  render : α → String
+
+instance : Elem Fp := ⟨fun s => s.toNat?.map Fp.ofNat, fun a => toString a.val⟩
+instance : Elem I64 := ⟨fun s => s.toInt?.map I64.mk, fun a => toString a.v⟩
+
+def parseRat (s : String) : Option Rat :=
+  match s.splitOn "/" with
+  | [n] => n.toInt?.map fun i => (i : Rat)
+  | [n, d] =>
+    match n.toInt?, d.toInt? with
+    | some i, some j => some ((i : Rat) / (j : Rat))
+    | _, _ => none
+  | _ => none
+
+instance : Elem Rat := ⟨parseRat, showRat⟩
+
+section Generic
+variable {α : Type} [Add α] [Sub α] [Mul α] [Div α] [Neg α] [Zero α] [Elem α]
+
+structure Env (α : Type) where
+  tens : List (String × Operand String α) := []
+  mats : List (String × MOperand α) := []
+
+def parseVals (s : String) : Option (List α) := (splitComma s).mapM Elem.parse
+
+def showVals (l : List α) : String :=
+  if l.isEmpty then "-" else ",".intercalate (l.map Elem.render)
+
+def showTensor (o : Outcome (Tensor String α)) : String :=
+  showOutcome (fun t => s!"shape={showShape t.shape} data={showVals t.data}") o
+
+def showMatrix (o : Outcome (Matrix α)) : String :=
+  showOutcome (fun m => s!"size={m.rows}x{m.columns} data={showVals m.data}") o
+
+def parsePairs (s : String) : Option (List (Nat × Nat)) :=
+  (splitComma s).mapM fun part =>
+    match part.splitOn ":" with
+    | [a, b] => match a.toNat?, b.toNat? with
+      | some x, some y => some (x, y)
+      | _, _ => none
+    | _ => none
+
+def lookupT (e : Env α) (n : String) : Option (Operand String α) := (e.tens.find? (·.1 = n)).map (·.2)
+def lookupM (e : Env α) (n : String) : Option (MOperand α) := (e.mats.find? (·.1 = n)).map (·.2)
+
+def binop (name : String) : Option (α → α → α) :=
+  match name with
+  | "add" => some (· + ·)
+  | "sub" => some (· - ·)
+  | "ewise" => some (fun x y => x * y - y)
+  | "sadd" => some (· + ·)
+  | "ssub" => some (· - ·)
+  | "smul" => some (· * ·)
+  | "sdiv" => some (· / ·)
+  | _ => none
+
+def stepEnv (e : Env α) (toks : List String) : Env α × String :=
+  match toks with
+  | ["t", name, shapeS, valsS] =>
+    match parseShape shapeS, (parseVals valsS : Option (List α)) with
+    | some shape, some vals =>
+      match tensorFrom shape vals with
+      | .ok t => ({ e with tens := (name, .tensor t) :: e.tens }, "ok")
+      | .panic k => (e, s!"panic({k})")
+    | _, _ => (e, "bad-op")
+  | ["v", name, src, kind, argS] =>
+    match lookupT e src with
+    | none => (e, "no-operand")
+    | some o =>
+      let sv := o.asView
+      let r : Option (TView String α) :=
+        match kind with
+        | "access" => sv.access (parseNames argS)
+        | "transpose" => sv.transpose (parseNames argS)
+        | "reverse" => sv.reverse (parseNames argS)
+        | "rename" => sv.rename (parseNames argS)
+        | "range" => (parsePairs argS).bind sv.range
+        | _ => none
+      match r with
+      | some v => ({ e with tens := (name, .view v) :: e.tens }, s!"ok shape={showShape v.shape}")
+      | none => (e, "none")
+  | ["m", name, rowsS, colsS, valsS] =>
+    match rowsS.toNat?, colsS.toNat?, (parseVals valsS : Option (List α)) with
+    | some r, some c, some vals =>
+      match matrixFromFlat (r, c) vals with
+      | .ok m => ({ e with mats := (name, .matrix m) :: e.mats }, "ok")
+      | .panic k => (e, s!"panic({k})")
+    | _, _, _ => (e, "bad-op")
+  | ["w", name, src, "oftensor"] =>
+    match lookupT e src with
+    | none => (e, "no-operand")
+    | some o =>
+      match MView.ofTView o.asView with
+      | some v => ({ e with mats := (name, .view v) :: e.mats }, s!"ok size={v.rows}x{v.columns}")
+      | none => (e, "none")
+  | "w" :: name :: src :: kind :: args =>
+    match lookupM e src with
+    | none => (e, "no-operand")
+    | some o =>
+      let sv := o.asView
+      let r : Option (MView α) :=
+        match kind, args with
+        | "range", [rs, cs] =>
+          match parsePairs rs, parsePairs cs with
+          | some [a], some [b] => sv.range a b
+          | _, _ => none
+        | "reverse", [flags] => some (sv.reverse (flags.startsWith "1") (flags.endsWith "1"))
+        | _, _ => none
+      match r with
+      | some v => ({ e with mats := (name, .view v) :: e.mats }, s!"ok size={v.rows}x{v.columns}")
+      | none => (e, "none")
+  | op :: a :: b :: _ =>
+    if op = "add" ∨ op = "sub" ∨ op = "ewise" then
+      match lookupT e a, lookupT e b, (binop op : Option (α → α → α)) with
+      | some x, some y, some f => (e, showTensor (elementwise f x y))
+      | _, _, _ =>
+        match lookupM e a, lookupM e b, (binop op : Option (α → α → α)) with
+        | some x, some y, some f => (e, showMatrix (mElementwise f x y))
+        | _, _, _ => (e, "no-operand")
+    else if op = "mul" then
+      match lookupT e a, lookupT e b with
+      | some x, some y => (e, showTensor (matMul x.asView y.asView))
+      | _, _ =>
+        match lookupM e a, lookupM e b with
+        | some x, some y => (e, showMatrix (mMatMul x.asView y.asView))
+        | _, _ => (e, "no-operand")
+    else if op = "dot" then
+      match lookupT e a, lookupT e b with
+      | some x, some y => (e, showOutcome (fun (x : α) => s!"value={Elem.render x}") (vectorProduct x y))
+      | _, _ => (e, "no-operand")
+    else if op = "sadd" ∨ op = "ssub" ∨ op = "smul" ∨ op = "sdiv" then
+      match (Elem.parse b : Option α), (binop op : Option (α → α → α)) with
+      | some s, some f =>
+        match lookupT e a with
+        | some x => (e, showTensor (scalarOp f x s))
+        | none =>
+          match lookupM e a with
+          | some x => (e, showMatrix (mScalarOp f x s))
+          | none => (e, "no-operand")
+      | _, _ => (e, "bad-op")
+    else if op = "neg" then
+      match lookupM e a with
+      | some x => (e, showMatrix (mNeg x))
+      | none => (e, "no-operand")
+    else if op = "mmap" then
+      match lookupM e a with
+      | some x => (e, showMatrix (mMap (fun v => v * v - v) x))
+      | none => (e, "no-operand")
+    else (e, "bad-op")
+  | ["neg", a] =>
+    match lookupM e a with
+    | some x => (e, showMatrix (mNeg x))
+    | none => (e, "no-operand")
+  | _ => (e, "bad-op")
+
+end Generic
+
+inductive State where
+  | none
+  | fp (e : Env Fp)
+  | rat (e : Env Rat)
+  | int (e : Env I64)
+
+def init : State := .none
+
+def step (s : State) (toks : List String) : State × String :=
+  match toks with
+  | ["@", "fp"] => (.fp {}, "ok")
+  | ["@", "rat"] => (.rat {}, "ok")
+  | ["@", "i64"] => (.int {}, "ok")
+  -- f64 runs carry integer-valued data only (exact in binary floating point): the integer model
+  | ["@", "f64"] => (.int {}, "ok")
+  | _ =>
+    match s with
+    | .none => (s, "no-case")
+    | .fp e => let (e', a) := stepEnv e toks; (.fp e', a)
+    | .rat e => let (e', a) := stepEnv e toks; (.rat e', a)
+    | .int e => let (e', a) := stepEnv e toks; (.int e', a)
 
 end Driver.C03
